@@ -410,6 +410,8 @@ class Obs:
 def run_ucg(ucg, args, cwd, home, trace_file=None, timeout=30):
     """`env -i`-style run: only HOME, PATH (and the trace sink) are set."""
     env = {"HOME": home, "PATH": "/usr/bin:/bin"}
+    if os.environ.get("VERIF_COVERAGE") and os.environ.get("LLVM_PROFILE_FILE"):      # development aid, see common._cargo_env
+        env["LLVM_PROFILE_FILE"] = os.environ["LLVM_PROFILE_FILE"]
     if trace_file:
         env["UCG_VERIF_TRACE"] = trace_file
         if os.path.exists(trace_file):
